@@ -3,6 +3,7 @@ extracted from MIR (analysis/symx.py). Both sides are evaluated on the property'
 from . import symx
 
 ISIZE_MAX = (1 << 63) - 1
+INT_WIDTH = {"u8": 8, "i8": 8, "u16": 16, "i16": 16, "u32": 32, "i32": 32, "u64": 64, "i64": 64, "u128": 128, "i128": 128, "usize": 0, "isize": 0}  # 0: the target's pointer width
 
 
 class Panic(Exception):
@@ -29,6 +30,9 @@ class Layouts:
     def __init__(self, F):
         self.F = F
         self.word = F.pointer_bits // 8
+        self.bits = F.pointer_bits
+        self.imax = (1 << (self.bits - 1)) - 1  # isize::MAX of the target
+        self.umod = 1 << self.bits  # usize arithmetic wraps here
 
     def type_layout(self, idx, shapes, tail_len=0, env=None, want_fields=False):
         """(size, align) of type idx; type parameters from `shapes` (name -> (size, align)); unsized tails use tail_len.
@@ -136,6 +140,17 @@ class Layouts:
         return False
 
     # ------------------------------------------------------------------ expression evaluation
+    def _width(self, e):
+        """Bit width an integer expression is computed in: the target's pointer width unless it was widened (`len as u64 * ..`)."""
+        if isinstance(e, tuple) and e:
+            if e[0] == "cast" and len(e) > 3 and e[3] in INT_WIDTH:
+                return INT_WIDTH[e[3]] or self.bits
+            if e[0] == "bin":
+                return max(self._width(e[2]), self._width(e[3]))
+            if e[0] == "call" and e[2] in ("min", "max") and len(e[3]) == 2:
+                return max(self._width(e[3][0]), self._width(e[3][1]))
+        return self.bits
+
     def eval(self, e, shapes, args, tail_len=0):
         """Evaluate a symx expression to: int | ('L', size, align) | tuple | ('ERR',)."""
         k = e[0]
@@ -165,7 +180,12 @@ class Layouts:
                 return v[1 + e[2]]
             raise Unknown("tuple field of " + str(v)[:40])
         if k == "cast":
-            return self.eval(e[2], shapes, args, tail_len)
+            v = self.eval(e[2], shapes, args, tail_len)
+            w = INT_WIDTH.get(e[3] if len(e) > 3 else None)
+            if isinstance(v, int) and w is not None:
+                w = self.bits if w == 0 else w
+                return v & ((1 << w) - 1)  # `wide as usize` keeps the low bits
+            return v
         if k == "bin":
             a = self.eval(e[2], shapes, args, tail_len)
             b = self.eval(e[3], shapes, args, tail_len)
@@ -183,10 +203,11 @@ class Layouts:
                 raise Unknown("operator " + op)
             except ZeroDivisionError:
                 raise Panic()
-            if not wo and (r < 0 or r >= (1 << 64)) and op in ("Add", "Sub", "Mul"):
-                r &= (1 << 64) - 1  # release-mode wrapping (debug builds would panic)
+            mod = 1 << max(self._width(e[2]), self._width(e[3]))
+            if not wo and (r < 0 or r >= mod) and op in ("Add", "Sub", "Mul"):
+                r &= mod - 1  # release-mode wrapping (debug builds would panic)
             if wo:
-                return ("T", r & ((1 << 64) - 1), int(r < 0 or r >= (1 << 64)))
+                return ("T", r & (mod - 1), int(r < 0 or r >= mod))
             return r
         if k == "call":
             path, name = e[1], e[2]
@@ -202,7 +223,7 @@ class Layouts:
                 n = self.eval(a[0], shapes, args, tail_len)
                 s, al = self.type_layout(gi[0], shapes, 0)
                 tot = s * n
-                if tot > ISIZE_MAX - (al - 1):
+                if tot > self.imax - (al - 1):
                     return ("ERR",)
                 return ("L", tot, al)
             if path == "<core::alloc::layout::Layout>::extend":
@@ -215,7 +236,7 @@ class Layouts:
                 na = max(xa, ya)
                 off = round_up(xs, ya)
                 ns = off + ys
-                if ns > ISIZE_MAX - (na - 1):
+                if ns > self.imax - (na - 1):
                     return ("ERR",)
                 return ("T", ("L", ns, na), off)
             if path == "<core::alloc::layout::Layout>::pad_to_align":
@@ -224,7 +245,7 @@ class Layouts:
             if path in ("<core::alloc::layout::Layout>::from_size_align",):
                 s = self.eval(a[0], shapes, args, tail_len)
                 al = self.eval(a[1], shapes, args, tail_len)
-                if al == 0 or al & (al - 1) or s > ISIZE_MAX - (al - 1):
+                if al == 0 or al & (al - 1) or s > self.imax - (al - 1):
                     return ("ERR",)
                 return ("L", s, al)
             if path == "<core::alloc::layout::Layout>::from_size_align_unchecked":
@@ -237,7 +258,7 @@ class Layouts:
                 if al2 == 0 or al2 & (al2 - 1):
                     return ("ERR",)
                 na = max(al, al2)
-                if s > ISIZE_MAX - (na - 1):
+                if s > self.imax - (na - 1):
                     return ("ERR",)
                 return ("L", s, na)
             if path == "<core::alloc::layout::Layout>::padding_needed_for":
@@ -248,7 +269,7 @@ class Layouts:
                 _, s, al = self.eval(a[0], shapes, args, tail_len)
                 n = self.eval(a[1], shapes, args, tail_len)
                 ps = round_up(s, al)
-                if ps * n > ISIZE_MAX - (al - 1):
+                if ps * n > self.imax - (al - 1):
                     return ("ERR",)
                 return ("T", ("L", ps * n, al), ps)
             if path in ("<core::alloc::layout::Layout>::size", "<core::alloc::layout::Layout>::align"):
@@ -267,20 +288,20 @@ class Layouts:
             if name == "saturating_mul" and len(a) == 2:
                 x = self.eval(a[0], shapes, args, tail_len)
                 y = self.eval(a[1], shapes, args, tail_len)
-                return min(x * y, (1 << 64) - 1)
+                return min(x * y, self.umod - 1)
             if name in ("wrapping_add", "wrapping_sub", "wrapping_mul", "saturating_sub", "saturating_add", "next_multiple_of") and len(a) == 2:
                 x = self.eval(a[0], shapes, args, tail_len)
                 y = self.eval(a[1], shapes, args, tail_len)
                 if name == "wrapping_add":
-                    return (x + y) & ((1 << 64) - 1)
+                    return (x + y) & (self.umod - 1)
                 if name == "wrapping_sub":
-                    return (x - y) & ((1 << 64) - 1)
+                    return (x - y) & (self.umod - 1)
                 if name == "wrapping_mul":
-                    return (x * y) & ((1 << 64) - 1)
+                    return (x * y) & (self.umod - 1)
                 if name == "saturating_sub":
                     return max(x - y, 0)
                 if name == "saturating_add":
-                    return min(x + y, (1 << 64) - 1)
+                    return min(x + y, self.umod - 1)
                 return round_up(x, y)
             if name in ("checked_add", "checked_mul", "checked_sub", "checked_next_multiple_of") and len(a) == 2 and path.startswith("<usize>"):
                 x = self.eval(a[0], shapes, args, tail_len)
@@ -293,7 +314,7 @@ class Layouts:
                     r = round_up(x, y)
                 else:
                     r = {"checked_add": x + y, "checked_mul": x * y, "checked_sub": x - y}[name]
-                return ("ERR",) if r < 0 or r >= (1 << 64) else r
+                return ("ERR",) if r < 0 or r >= self.umod else r
             if path in ("<core::option::Option<T>>::and_then", "<core::option::Option<T>>::map", "<core::result::Result<T, E>>::and_then", "<core::result::Result<T, E>>::map") and len(a) == 2:
                 v = self.eval(a[0], shapes, args, tail_len)
                 if v == ("ERR",):
@@ -306,6 +327,17 @@ class Layouts:
                 return self.eval(r, shapes, args, tail_len)
             if path in ("<core::option::Option<T>>::ok_or", "<core::result::Result<T, E>>::ok", "<core::result::Result<T, E>>::map_err", "<core::option::Option<T>>::ok_or_else") and a:
                 return self.eval(a[0], shapes, args, tail_len)
+            if name in ("try_from", "try_into") and a and "TryFrom<" in path or name == "try_into" and a:
+                # `usize::try_from(wide)`: the value if it fits the target type, an error otherwise
+                import re as _re
+
+                m = _re.match(r"^<(\w+) as core::convert::TryFrom<", path) or _re.search(r"TryInto<(\w+)>", path)
+                w = INT_WIDTH.get(m.group(1)) if m else None
+                if w is not None:
+                    w = self.bits if w == 0 else w
+                    x = self.eval(a[0], shapes, args, tail_len)
+                    if isinstance(x, int):
+                        return x if 0 <= x < (1 << w) else ("ERR",)
             if name in ("eq", "ne") and len(a) == 2 and (path.endswith(("core::cmp::PartialEq>::eq", "core::cmp::PartialEq>::ne")) or path in ("core::cmp::PartialEq::eq", "core::cmp::PartialEq::ne")):
                 x = self.eval(a[0], shapes, args, tail_len)
                 y = self.eval(a[1], shapes, args, tail_len)
@@ -358,6 +390,6 @@ def shape_list(full):
     return out
 
 
-def len_list(full):
+def len_list(full, bits=64):
     base = list(range(0, 18)) if full else [0, 1, 2, 3, 7, 17]
-    return base + [1 << 20, (1 << 61) + 5, (1 << 63) - 1, (1 << 64) - 1]
+    return base + [1 << 20, (1 << (bits - 3)) + 5, (1 << (bits - 1)) - 1, (1 << bits) - 1]
